@@ -24,6 +24,7 @@ EXPLANATION = (
     "fallback - and maps back in the reader to a compatible flow type; timestamps are stored as isoformat(); (R18.6) the "
     "reader enumerates every table (no predicate that can exclude user tables). NOT decided: row counts, value fidelity, "
     "sqlite3's transaction behaviour, DuckDB."
+    " Also decided (rules added after the fifth blind round): (R18.7) memoised functions of the SQL adapters do not read the database."
 )
 RULE_SUMMARY = "instances: SQL execute sites with their slots, reads of batch_size, transaction statements, emitted SQL types with computed affinity"
 
